@@ -360,7 +360,7 @@ fn set_cfgs(p: &Program) -> Vec<DefinedSetConfig> {
     v
 }
 
-fn load(p: &Program) -> Result<(PolicyTable, Arc<table::PolicyAssignment>), String> {
+pub(crate) fn load(p: &Program) -> Result<(PolicyTable, Arc<table::PolicyAssignment>), String> {
     let mut t = PolicyTable::new();
     for cfg in set_cfgs(p) {
         t.add_defined_set(cfg).map_err(|e| format!("add_defined_set: {e:?}"))?;
